@@ -532,7 +532,7 @@ SBuf::chop(size_type pos, size_type n)
     if (pos == npos || pos > length())
         pos = length();
 
-    if (n == npos || (pos+n) > length())
+    if (n == npos || n > length() - pos) // not (pos+n) > length(): that sum may wrap
         n = length() - pos;
 
     // if there will be nothing left, reset the buffer while we can
